@@ -22,3 +22,4 @@ def run(prog, rep):
     r_err.run(prog, rep)
     r_safe.run_vecinit(prog, rep)
     r_safe.run_rawbuf(prog, rep)
+    r_safe.run_colidx(prog, rep)
